@@ -134,3 +134,20 @@ P["C16"] = {
         "the history checks use the verif hooks rng_hooks (entropy override, sample tape): add-only, feature-gated code in /repo (hook.patch)",
     ],
 }
+
+P["C11"] = {
+    "lean_modules": ["Heathcliff.Props.C11"],
+    "level": "proof",
+    "runs": lambda tier, seed: [{"seed": seed}],
+    "search": lambda tier, seed: [{"seed": seed * 7919}],
+    "rule": "Batching-compatible (N, t): N = 2..128 (thorough 1024), t batching primes of 4..60 bits; all N unit vectors for small N (the maps are linear), all-(t-1), zero, short (zero-padded), ramp and random vectors; decode of arbitrary (also short) plaintext polynomials against evaluation at psi^(±3^i); sums / negacyclic products of encodings decode slot-wise; every rotation step and the row swap through GaloisTool::apply on the encoded polynomial; coefficient encoding = reduction mod t.",
+    "assumptions": [],
+}
+P["C04"] = {
+    "lean_modules": ["Heathcliff.Props.C04"],
+    "level": "proof",
+    "runs": lambda tier, seed: [{"seed": seed}] if tier == "quick" else [{"seed": seed * 1000 + i} for i in range(3)],
+    "search": lambda tier, seed: [{"seed": seed * 7919}],
+    "rule": "Unit level: GaloisTool::apply / generate_table_ntt / apply_ntt for all odd g (small N) or sampled g, get_elt_from_step for all steps incl. out-of-range, get_elts_all. Ciphertext level (BFV, BGV, CKKS; N = 4..16 quick, ..64 thorough; two levels): apply_galois with its own key for all odd g, rotate_rows for every step with only the default power-of-two keys (NAF composed) and with a direct key, rotate_columns, rotate_vector for every step, complex_conjugate, switching to another secret key; results decrypted with exact integers (prog lines), decoded slots compared with the rotated input.",
+    "assumptions": ["CKKS slot comparison uses the library's own decoder with tolerance 1e-3 (labelled test); the integer-level check (galois_ckks lines) is exact"],
+}
